@@ -46,7 +46,7 @@ MUTANTS = [
     ("C07", "committee-count-no-max", SHG, "if uint64(spec.MAX_COMMITTEES_PER_SLOT) < committeesPerSlot {",
      "if false {", None),
     ("C07", "proposer-seed-epoch-start", PR, "binary.LittleEndian.PutUint64(buf[32:], uint64(startSlot+i))",
-     "binary.LittleEndian.PutUint64(buf[32:], uint64(i))", None),
+     "binary.LittleEndian.PutUint64(buf[32:], uint64(startSlot))", None),
     ("C07", "proposer-accept-gt", PR, "if effectiveBalance*0xff >= spec.MAX_EFFECTIVE_BALANCE*Gwei(randomByte) {",
      "if effectiveBalance*0xff > spec.MAX_EFFECTIVE_BALANCE*Gwei(randomByte) {", None),
     ("C07", "sync-accept-gt", SY, "if effectiveBalance*0xff >= spec.MAX_EFFECTIVE_BALANCE*Gwei(randomByte) {",
@@ -63,7 +63,7 @@ MUTANTS = [
     ("C07", "sync-byte-slip", SY, "randomByte := h[i%32]", "randomByte := h[(i+1)%32]", None),
     ("C07", "sync-block-index", SY, "binary.LittleEndian.PutUint64(buf[32:32+8], uint64(i/32))", "binary.LittleEndian.PutUint64(buf[32:32+8], uint64(i/32)+1)", None),
     ("C07", "revert-epc-sync-unwrap", EC, "if wrapped, ok := state.(interface{ Unwrap() BeaconState }); ok {",
-     "if wrapped, ok := state.(interface{ UnwrapX() BeaconState }); ok {", None),
+     "if wrapped, ok := state.(interface{ Unwrap() BeaconState }); ok && false {", None),
     ("C07", "proposer-domain", PR, "GetSeed(spec, mixes, epoch, DOMAIN_BEACON_PROPOSER)",
      "GetSeed(spec, mixes, epoch, DOMAIN_BEACON_ATTESTER)", None),
 ]
